@@ -40,6 +40,90 @@ def cfg_variant(cfg, work, subst, suffix):
     return path
 
 
+# ----------------------------------------------------------------------------- replay (tolerant reader)
+
+def _run_chunk(cases, workdir, name, env, timeout_ms):
+    """vlib._run_replay_chunk with a tolerant reader: an observation of a string whose storage was corrupted is not
+    valid UTF-8 in the verdict file; it must become a (mismatching) observation, not a tool error."""
+    import subprocess
+    cpath = os.path.join(workdir, f"{name}.cases.ndjson")
+    opath = os.path.join(workdir, f"{name}.out.ndjson")
+    with open(cpath, "w") as f:
+        for c in cases:
+            f.write(json.dumps(c) + "\n")
+    if os.path.exists(opath):
+        os.remove(opath)
+    verdicts, skip, restarts = {}, 0, 0
+    while skip < len(cases):
+        before = os.path.getsize(opath) if os.path.exists(opath) else 0
+        p = subprocess.Popen([os.path.join(vlib.BIN, "replay"), cpath, opath, "--timeout-ms", str(timeout_ms),
+                              "--skip", str(skip)], env=env, stdin=subprocess.DEVNULL, stdout=subprocess.DEVNULL,
+                             stderr=subprocess.DEVNULL)
+        p.wait()
+        rc = p.returncode
+        started, done = None, False
+        with open(opath, "rb") as f:
+            f.seek(before)
+            for raw in f:
+                line = raw.decode("utf-8", errors="replace").strip()
+                if not line:
+                    continue
+                try:
+                    o = json.loads(line)
+                except Exception:
+                    continue
+                if "start" in o:
+                    started = o
+                elif "done" in o:
+                    done = True
+                elif "id" in o and "timeout" not in o:
+                    verdicts[o["id"]] = o
+                    if started and started["start"] == o["id"]:
+                        started = None
+        if done and rc == 0:
+            break
+        if started is None:
+            if rc == 2:
+                raise vlib.ToolError(f"replayer rejected its input ({cpath})")
+            raise vlib.ToolError(f"replayer died (rc={rc}) outside any case ({cpath})")
+        n, cid = started["n"], started["start"]
+        kind = "hang" if rc == 97 else f"crash(rc={rc})"
+        verdicts[cid] = {"id": cid, "tag": cases[n].get("tag", ""), "pass": False, "why": f"process {kind}", "step": 0,
+                         "got": [{"class": kind, "emit": [], "val": None, "msg": None}]}
+        skip = n + 1
+        restarts += 1
+        if restarts > 400:
+            raise vlib.ToolError("too many replayer restarts")
+    return [verdicts.get(c["id"]) or {"id": c["id"], "tag": c.get("tag", ""), "pass": False, "why": "no verdict",
+                                      "step": 0, "got": []} for c in cases]
+
+
+def replay(cases, workdir, env_extra=None, jobs=12, timeout_ms=10000, name="replay"):
+    """Same contract as vlib.replay."""
+    import time
+    from concurrent.futures import ThreadPoolExecutor
+    os.makedirs(workdir, exist_ok=True)
+    if len({c["id"] for c in cases}) != len(cases):
+        raise vlib.ToolError("duplicate case id")
+    env = dict(os.environ)
+    for k in ("STEEL_JIT", "STEEL_INLINE", "STEEL_INLINE_RECURSIVE", "STEEL_CLOSURE_LIFTING", "STEEL_MODULE_INLINE"):
+        env.pop(k, None)
+    env.update(env_extra or {})
+    if not cases:
+        return []
+    jobs = max(1, min(jobs, (len(cases) + 19) // 20))
+    chunks = [cases[i::jobs] for i in range(jobs)]
+    t0 = time.time()
+    with ThreadPoolExecutor(max_workers=jobs) as ex:
+        futs = [ex.submit(_run_chunk, ch, workdir, f"{name}.{i}", env, timeout_ms) for i, ch in enumerate(chunks)]
+        res = []
+        for f in futs:
+            res.extend(f.result())
+    by_id = {v["id"]: v for v in res}
+    vlib.log(f"[replay] {name}: {len(cases)} cases in {time.time() - t0:.1f}s, {sum(1 for v in res if not v['pass'])} failing")
+    return [by_id[c["id"]] for c in cases]
+
+
 # ----------------------------------------------------------------------------- alias programs
 
 def th(kind):
@@ -520,7 +604,7 @@ def builtin_names():
 def existing_names(names, work):
     """Keep the names that are bound to something in a fresh engine."""
     case = {"id": "sweep-names", "fresh": True, "tag": "", "steps": [{"src": n, "class": "any"} for n in names]}
-    v = vlib.replay([case], work, env_extra=ENVS["nojit"], jobs=1, timeout_ms=20000, name="sweep_names")[0]
+    v = replay([case], work, env_extra=ENVS["nojit"], jobs=1, timeout_ms=20000, name="sweep_names")[0]
     got = v.get("got") or []
     return [n for n, g in zip(names, got) if g["class"] == "ok" and (g.get("val") or "").startswith("#<")]
 
@@ -633,7 +717,7 @@ def retry_alone(c, env_name, work):
     compile / define that stops the world right after another case's native thread has exited); such a hang says
     nothing about persistence.  Returns the verdict of the rerun."""
     k = dict(strip(c), id=c["id"] + "-alone", fresh=True)
-    return vlib.replay([k], work, env_extra=ENVS[env_name], jobs=1, timeout_ms=20000, name=f"alone_{env_name}")[0]
+    return replay([k], work, env_extra=ENVS[env_name], jobs=1, timeout_ms=20000, name=f"alone_{env_name}")[0]
 
 
 def judge(r, cases, verdicts, env_name, stats, work=None):
@@ -707,7 +791,7 @@ def selftest(r, cases, work):
             m["id"] = "SELFTEST-" + c["id"]
             k = len(m["steps"][2]["emit"]) - 1
             m["steps"][2]["emit"][k] = m["steps"][2]["emit"][k].replace("#true)", "#false)")
-            v = vlib.replay([strip(m)], work, jobs=1, name="selftest")[0]
+            v = replay([strip(m)], work, jobs=1, name="selftest")[0]
             bad = failure(m, v)
             if v["pass"] or bad is None or "call2" not in bad[0] or vlib.match_finding(
                     PROP, dict(strip(m), tag=bad[0]), {"why": bad[1]}, r.findings):
@@ -817,7 +901,7 @@ def sharing_selftest(work):
             c["id"] = f"SHARING-{x}-{xfer}-{role}"
             cases.append(c)
             want.append(f"s2:a{1 if role == 'base' else 2}:{x}")
-    verdicts = vlib.replay([strip(c) for c in cases], work, env_extra=ENVS["nojit"], jobs=4, timeout_ms=10000,
+    verdicts = replay([strip(c) for c in cases], work, env_extra=ENVS["nojit"], jobs=4, timeout_ms=10000,
                            name="sharing_selftest")
     for c, v, w in zip(cases, verdicts, want):
         got = v["got"][1]["emit"] if len(v.get("got") or []) > 1 else []
@@ -837,7 +921,7 @@ def sample_and_selftest(r, tier, rnd, pool, seen, stats, work):
     picked = rnd.sample(pool, min(len(pool), SAMPLE_SIZE[tier]))
     sample = [c for _, c in picked]
     for env in SAMPLE_ENVS:
-        verdicts = vlib.replay([strip(c) for c in sample], work, env_extra=ENVS[env], jobs=12, timeout_ms=10000,
+        verdicts = replay([strip(c) for c in sample], work, env_extra=ENVS[env], jobs=12, timeout_ms=10000,
                                name=f"sample_{env}")
         judge(r, sample, verdicts, env, stats, work)
     # the same histories as ONE top-level expression instead of a function activation
@@ -850,7 +934,7 @@ def sample_and_selftest(r, tier, rnd, pool, seen, stats, work):
                 top.append(k)
     stats["cases"]["toplevel"] = len(top)
     for env in MAIN_ENVS:
-        verdicts = vlib.replay([strip(c) for c in top], work, env_extra=ENVS[env], jobs=12, timeout_ms=10000,
+        verdicts = replay([strip(c) for c in top], work, env_extra=ENVS[env], jobs=12, timeout_ms=10000,
                                name=f"toplevel_{env}")
         judge(r, top, verdicts, env, stats, work)
     selftest(r, sample, work)
@@ -902,7 +986,7 @@ def run(tier, seed):
                 # with the JIT on, an error raised by a non-tail call inside a compiled function can abort the process
                 # (inconclusive for this property, and expensive): half of the shapes only
                 sub = [c for c in cases if "|shape=MG|" in c["tag"] or "|shape=LG|" in c["tag"]]
-            verdicts = vlib.replay([strip(c) for c in sub], work, env_extra=ENVS[env], jobs=12,
+            verdicts = replay([strip(c) for c in sub], work, env_extra=ENVS[env], jobs=12,
                                    timeout_ms=4000 if name == "sweep" else 10000, name=f"{name}_{env}")
             judge(r, sub, verdicts, env, stats, work)
         if name == "sweep":
@@ -948,4 +1032,14 @@ def run(tier, seed):
 
 
 def replay_file(path):
-    return vlib.replay_file(PROP, path)
+    """Re-run one recorded failing case (./check C03 --replay <path>) under the recorded switches."""
+    with open(path) as f:
+        obj = json.load(f)
+    case = {k: v for k, v in obj["case"].items() if k in ("id", "fresh", "tag", "steps")}
+    v = replay([case], os.path.join(vlib.WORK, PROP, "replay1"), env_extra=obj.get("env") or obj["case"].get("env"),
+               jobs=1, name="replay1")[0]
+    print(json.dumps(v, indent=1))
+    if not v["pass"]:
+        print(f"VIOLATION property={PROP} replay={path}")
+        return 1
+    return 0
